@@ -538,6 +538,11 @@ func replay() {
 	defer l.Merge()
 	fmt.Printf("replay %+v\n", c)
 	switch c.Kind {
+	case "exact-lattice":
+		var lc latticeCase
+		if err := mc.LoadReplay(chk.ReplayFile(), &lc); err == nil {
+			latticeOne(l, lc)
+		}
 	case "twisted":
 		var t twistCase
 		if err := mc.LoadReplay(chk.ReplayFile(), &t); err == nil {
